@@ -493,6 +493,9 @@ fn run_rt_leg(ctx: &Ctx, head_epoch: usize, depth: usize, name: &str) {
 }
 
 pub fn run(ctx: &Ctx) {
+    if vcommon::sched::is_worker() {
+        return;
+    }
     let quick = ctx.quick();
     let d = if quick { 6 } else { 8 };
     run_agent_leg(ctx, false, 0, d, "mapq-agent");
@@ -503,6 +506,9 @@ pub fn run(ctx: &Ctx) {
 
 /// Sync-consistency variant used by C03 (both link rules).
 pub fn run_sync(ctx: &Ctx) {
+    if vcommon::sched::is_worker() {
+        return;
+    }
     CHECK_SNAPSHOT.store(true, std::sync::atomic::Ordering::Relaxed);
     let quick = ctx.quick();
     let d = if quick { 6 } else { 8 };
